@@ -44,7 +44,7 @@ class NameValueRecord(collections.MutableMapping):
         else:
             self.raw += string
 
-        lines = unfold_lines(string).splitlines()
+        lines = split_lines(unfold_lines(string))
         for line in lines:
             if line:
                 if ':' not in line:
@@ -166,6 +166,22 @@ def guess_line_ending(string):
         return '\n'
 
 
+def split_lines(string):
+    '''Split text into lines at CRLF, LF and CR only.
+
+    ``str.splitlines`` also breaks at vertical tab, form feed, the
+    information separators, NEL and the Unicode line and paragraph
+    separators. In a Latin-1 decoded header block those are ordinary bytes
+    of a field value and must not start a new field.
+    '''
+    lines = string.replace('\r\n', '\n').replace('\r', '\n').split('\n')
+
+    if lines and not lines[-1]:
+        del lines[-1]
+
+    return lines
+
+
 def unfold_lines(string):
     '''Join lines that are wrapped.
 
@@ -173,7 +189,7 @@ def unfold_lines(string):
     line.
     '''
     assert isinstance(string, str), 'Expect str. Got {}'.format(type(string))
-    lines = string.splitlines()
+    lines = split_lines(string)
     line_buffer = io.StringIO()
 
     for line_number in range(len(lines)):
